@@ -19,15 +19,15 @@ CHECKS = []
 NOT_YET = {}
 
 CHECKS.append(chk("C16", "exploration",
-    "Generated single-writer histories over all rows-per-object settings and cache sizes; after every commit the version is walked with harness-owned decoders (existence, decodability, link-vector shape, strict key order under an independent comparator, recorded size) and re-read by a fresh read-only connection whose rows, point lookups and entry-level dump (timestamps, offsets, previous-version names) must equal the writer's in-memory tree; generated nodes go through the node codec and back; the store flags any name re-written with different bytes; no-op statements must add zero PUTs. No counterexample in N generated cases; not a proof of absence.",
+    "Generated single-writer histories over all rows-per-object settings and cache sizes; after every commit the version is walked with harness-owned decoders (existence, decodability, link-vector shape, strict key order under an independent comparator, recorded size) and re-read by a fresh read-only connection whose rows, point lookups and entry-level dump (timestamps, offsets, previous-version names) must equal the writer's in-memory tree; generated nodes go through the node codec and back; the store flags any name re-written with different bytes; no-op statements must add zero PUTs; histories contain one commit and one s3db_vacuum under storage faults (incl. faults that only hit the retirement of the parent version), after which the same handle goes on and every version listed as current must be complete. No counterexample in N generated cases; not a proof of absence.",
     "property-based testing (rapid): round-trip + differential (writer vs fresh open) + invariant over request log"))
 
 CHECKS.append(chk("C06", "exploration",
-    "Differential testing against SQLite itself: generated programs (INSERT/UPDATE/DELETE/SELECT grammar over keys of all classes, predicates = < <= > >= IN BETWEEN, ORDER BY asc/desc, LIMIT/OFFSET, aggregates, transactions, re-opens) run in lock-step on an s3db table (rows-per-object 2..4096, node cache sizes) and a native WITHOUT ROWID table; statement outcome classes and result rows (sequences when ordered by key, multisets otherwise) must agree after every statement. Open findings K2a/K2b/K3/K4 are steered away from by construction (counted) and reported from their witnesses.",
+    "Differential testing against SQLite itself: generated programs (INSERT/UPDATE/DELETE/SELECT grammar over keys of all classes, predicates = < <= > >= IN BETWEEN, ORDER BY asc/desc, LIMIT/OFFSET, aggregates, transactions, re-opens) run in lock-step on an s3db table (rows-per-object 2..4096, node cache sizes) and a native WITHOUT ROWID table; statement outcome classes and result rows (sequences when ordered by key, multisets otherwise) must agree after every statement. Two further sub-checks run the same differential runner on tables without a key column and over keys that tie across the two numeric representations (incl. magnitudes >= 2^53); a quarter of the programs contain a same-write-time write/delete/re-insert pattern on one key. Open findings K3/K4 are steered away from by construction (counted) and reported from their witnesses.",
     "property-based differential testing (rapid) against native SQLite"))
 
 CHECKS.append(chk("C01", "exploration",
-    "Metamorphic + model: generated multi-writer histories (autocommit statements, transactions, refreshes, byte-identical retries, partial opens that commit merges of a subset of the frontier, unique write times in arbitrary order); at checkpoints 4-6 readers on copies of the bucket - read-only and read-write, four merge orders chosen through the permutation hook, plus copies where every retired version is listed as current again - must return identical rows, equal to an operation-based reference model; three read-write opens in a row must converge to one current version and write nothing more.",
+    "Metamorphic + model: generated multi-writer histories (autocommit statements, transactions, refreshes, byte-identical retries, partial opens that commit merges of a subset of the frontier, unique write times in arbitrary order); at checkpoints 4-6 readers on copies of the bucket - read-only and read-write, four merge orders chosen through the permutation hook, plus copies where every retired version is listed as current again - must return identical rows, equal to an operation-based reference model; three read-write opens in a row must converge to one current version and write nothing more. On single-node trees writers use node caches and a third of the transactions end in ROLLBACK. A function-level sub-check verifies idempotence, commutativity and associativity of the row merge on generated rows.",
     "stateful property-based testing (rapid): metamorphic relation over merge order/grouping/repetition + independent operation-based model"))
 CHECKS.append(chk("C02", "exploration",
     "Model-based: the same multi-writer runner biased to long per-key sequences (insert, partial updates, delete, re-insert) at non-monotone unique write times over 1-3 writers; after every statement the issuing writer's outcome class and rows, and at checkpoints all merged observers, must equal the operation-based reference model (row status by latest INSERT/DELETE, each column by latest assignment), which is by construction independent of how statements are spread over writers.",
@@ -38,21 +38,21 @@ CHECKS.append(chk("C07", "exploration",
     "property-based testing (rapid): algebraic laws + differential against native SQLite"))
 
 CHECKS.append(chk("C08", "exploration",
-    "Round trip against SQLite: generated rows with boundary-seeded values of every storage class in key and non-key position (and omitted columns) are written by two writers and bound identically into a native table; (value bits, typeof) of every cell must be equal after commit, after re-open on a new connection, after merging another writer's version, after delete+vacuum and from a fresh read-only open. TEXT that is not valid UTF-8 may be refused (the table must stay usable) but never altered.",
+    "Round trip against SQLite: generated rows with boundary-seeded values of every storage class in key and non-key position (and omitted columns) are written by two writers and bound identically into a native table; (value bits, typeof) of every cell must be equal after commit, after re-open on a new connection, after merging another writer's version, after delete+vacuum and from a fresh read-only open; single cells are then UPDATEd, half of the new values derived from what the cell holds (other numeric representation, -0.0 for 0.0, neighbour, same bytes in the other class), and older versions of shared keys are written by the other writer. TEXT that is not valid UTF-8 may be refused (the table must stay usable) but never altered.",
     "property-based round-trip / differential testing (rapid) against native SQLite"))
 
 CHECKS.append(chk("C09", "exploration",
-    "Generated multi-writer histories rich in returns to earlier content, with s3db_vacuum at arbitrary points and cutoffs before/at/after write times and year 2100. Per vacuum: rows on the vacuuming connection unchanged and equal to the reference model; fresh read-only and read-write observers equal to the model; every version object left in the bucket is walked with harness-owned decoders and every node link must resolve; every earlier recorded s3db_version (cutoff below its creation time) is re-opened restricted to that version and must give its recorded rows; later statements are checked against the model. Crash points inside vacuum are enumerated under C04.",
+    "Generated multi-writer histories rich in returns to earlier content, with s3db_vacuum at arbitrary points and cutoffs before/at/after write times and year 2100. Per vacuum: rows on the vacuuming connection unchanged and equal to the reference model; fresh read-only and read-write observers equal to the model; every version object left in the bucket is walked with harness-owned decoders and every node link must resolve; every earlier recorded s3db_version (cutoff below its creation time) is re-opened restricted to that version and must give its recorded rows; later statements are checked against the model. A quarter of the vacuums run under a storage fault (the connection must go on showing its rows without a refresh); one statement in eight commits while the retirement of its parent fails; histories may start with the 'content returns' pattern (row written, deleted, vacuumed away, written again byte-identically, node caches on). A kv-level sub-check does the latter deterministically. Crash points inside vacuum are enumerated under C04.",
     "stateful property-based testing (rapid): invariants over the bucket (reachability walk) + model + re-read of recorded versions"))
 CHECKS.append(chk("C10", "exploration",
     "Same histories; after every successful vacuum the entry-level dump of the vacuumed tree must hold no delete marker older than the cutoff and no purge tombstone (size = entries); for the year-2100 cutoff no ancestor version object and no node object that only deleted versions referred to may be left; repeating the same vacuum must leave the bucket byte-identical and the rows unchanged; rows deleted at/after the cutoff keep winning over older late-arriving writes, as the reference model (which forgets purged markers) predicts. Version-side cutoffs other than 'all/none' are not reachable at SQL level because version creation time is the wall clock (see DESIGN.md).",
     "stateful property-based testing (rapid): post-conditions over entry-level dump and bucket listing + idempotence (metamorphic) + model"))
 
 CHECKS.append(chk("C11", "exploration",
-    "Multi-writer histories with (s3db_version, rows) recorded after every step; at generated points every recorded version is re-opened restricted to exactly those names (Go-level read-only open and s3db_changes(from='[]',to=V)) and must give the recorded rows whatever happened since; s3db_version must not move across steps that add no effective operation (no row matched, refused statement, quiescent refresh) and must move whenever the visible rows change; read-only opens must report exactly the names under root/current/, read-write opens one name whose recorded parents (harness decoder) are that frontier.",
+    "Multi-writer histories with (s3db_version, rows) recorded after every step; at generated points every recorded version is re-opened restricted to exactly those names (Go-level read-only open and s3db_changes(from='[]',to=V)) and must give the recorded rows whatever happened since; s3db_version must not move across steps that add no effective operation (no row matched, refused statement, quiescent refresh) and must move whenever the visible rows change; read-only opens must report exactly the names under root/current/, read-write opens one name whose recorded parents (harness decoder) are that frontier. A second sub-check runs C14's fault-enumeration runner for every statement kind that commits and re-opens every recorded version after each fault run.",
     "stateful property-based testing (rapid): history invariant over recorded (version, rows) pairs"))
 CHECKS.append(chk("C12", "fault_enumeration",
-    "Generated ordered pairs (A,B) of recorded versions (incl. A after B, A=B, other writers' versions, multi-node trees sharing subtrees): s3db_changes(from=A,to=B) must return only rows of B, each once, and every row of B that is absent from or different in A, and must not fail; in fault mode the query is repeated with the p-th storage request of the diff failing for every p (exhaustive per pair): the query must fail or still satisfy both directions.",
+    "Generated ordered pairs (A,B) of recorded versions (incl. A after B, A=B, other writers' versions, far-apart pairs, version VECTORS naming two recordings at once, versions on both sides of a vacuum, multi-node trees sharing subtrees): s3db_changes(from=A,to=B) must return only rows of B, each once, and every row of B that is absent from or different in A, and must not fail; in fault mode the query is repeated with the p-th storage request of the diff failing for every p (exhaustive per pair): the query must fail or still satisfy both directions.",
     "property-based testing (rapid) with a two-sided set oracle + exhaustive single-fault enumeration per generated pair"))
 
 CHECKS.append(chk("C13", "exploration",
@@ -63,11 +63,11 @@ CHECKS.append(chk("C04", "fault_enumeration",
     "A generated committed multi-writer prefix is followed by a victim (read-write open that may commit a merge, then nothing / an autocommit statement / a transaction of 1-4 statements / s3db_vacuum). A fault-free reference run gives the contents before and after and the number M of mutating requests; for every k in 0..M (exhaustive per case) the victim is re-run on a fresh copy of the bucket with every request after its k-th mutation failing (the process dies), then a read-only, a read-write and a third recovery open must succeed, agree, show exactly the old or the new contents (new if acknowledged; unchanged for vacuum), and the current versions must resolve all node links.",
     "property-based generation of histories (rapid) + exhaustive crash-point enumeration per case through the fake object store"))
 CHECKS.append(chk("C14", "fault_enumeration",
-    "A generated committed prefix, then one target statement on a fresh handle (full/point/descending SELECT, autocommit write, transaction, s3db_refresh, s3db_version, s3db_changes read, s3db_vacuum, CREATE of a further table; read-only handles keep several versions unmerged so merges run under fault). A reference run gives result and request count R; the statement is re-run for every p<R with a single transport error at p and with persistent failure from p on, and once with the connection deadline in the past: it must return an error or exactly the reference result, stay within 50R+1000 requests (no retry loop; a panic kills the worker and is reported from the journal), and after the fault clears s3db_refresh on the same connection and a fresh connection must agree, show exactly the contents before or after the statement (after if it reported success) and accept a follow-up write that a fresh open sees.",
+    "A generated committed prefix, then one target statement on a fresh handle (full/point/descending SELECT, autocommit write, transaction, s3db_refresh, s3db_version, s3db_changes read, s3db_vacuum, CREATE of a further table; read-only handles keep several versions unmerged so merges run under fault). A reference run gives result and request count R; the statement is re-run for every p<R with a single transport error at p and with persistent failure from p on, and once with the connection deadline in the past: it must return an error or exactly the reference result, stay within 50R+1000 requests (no retry loop; a panic kills the worker and is reported from the journal), and after the fault clears s3db_refresh on the same connection and a fresh connection must agree, show exactly the contents before or after the statement (after if it reported success) and accept a follow-up write that a fresh open sees. Variants: a further writer commits after the target handle was opened (vacuum next to an unmerged sibling version), transactions that continue after a statement failed with a storage error (that statement must have had no effect), continuing without refresh, re-opening every recorded version, repeating a failed CREATE under the same name.",
     "property-based generation of programs (rapid) + exhaustive single/persistent fault enumeration per statement through the fake object store"))
 
 CHECKS.append(chk("C05", "exploration",
-    "State-machine generation on one connection plus an observer connection: autocommit statements and BEGIN..COMMIT / ROLLBACK / COMMIT-with-injected-storage-fault transactions (multi-row, duplicate-key and NULL-key statements inside), with explicit per-statement write_time or none, on tables pre-filled to several tree heights. Oracles: reads-own-writes against the reference model after every statement; the observer (refresh + scan) equals the committed model before and after the transaction ends; a rollback of either kind restores rows, s3db_version and the set of version objects (explicit rollback: zero PUT/DELETE); a COMMIT adds at most one version (exactly one if rows changed); entry-level timestamps of a transaction without write_time are one instant and write_time reads NULL again. Open findings K2/K3/K4 are steered away from (counted) and reported from their witnesses.",
+    "State-machine generation on one connection plus an observer connection: autocommit statements and BEGIN..COMMIT / ROLLBACK / COMMIT-with-injected-storage-fault transactions (multi-row, duplicate-key and NULL-key statements inside), with explicit per-statement write_time or none, on tables pre-filled to several tree heights. Oracles: reads-own-writes against the reference model after every statement; the observer (refresh + scan) equals the committed model before and after the transaction ends; a rollback of either kind restores rows, s3db_version and the set of version objects (explicit rollback: zero PUT/DELETE); a COMMIT adds at most one version (exactly one if rows changed); entry-level timestamps of a transaction without write_time are one instant and write_time reads NULL again; a third of the transactions also write a second s3db table of the connection (one write time across both tables). Open findings K3/K4 are steered away from (counted) and reported from their witnesses.",
     "stateful property-based testing (rapid) against a reference model + request-log and bucket-listing invariants + injected commit faults"))
 
 CHECKS.append(chk("C15", "exploration",
@@ -75,23 +75,23 @@ CHECKS.append(chk("C15", "exploration",
     "stateful property-based testing (rapid): model + metamorphic (retry leaves merged contents unchanged) + entry-level timestamp inspection"))
 
 CHECKS.append(chk("C20", "exploration",
-    "Grammar-based generation of CREATE VIRTUAL TABLE argument lists over the documented surface (column specifications with plain / single- / double-quoted names incl. spaces, keywords, non-ASCII and embedded quotes, optional types, PRIMARY KEY inline or trailing, NOT NULL on the key, keyword case and whitespace varied; options in any order), half of them with one mutation from the property's list of invalid forms. Accept oracle: pragma table_info equals that of a native table declared from the same specification with proper quoting, rows come back under the specified names, a NULL key is refused. Reject oracle: error, no table registered, no PUT/DELETE in the request log, the corrected definition of the same name then succeeds. Thorough tier adds coverage-guided native fuzzing of the columns parser (no panic, no hang).",
+    "Grammar-based generation of CREATE VIRTUAL TABLE argument lists over the documented surface (column specifications with plain / single- / double-quoted names incl. spaces, keywords, non-ASCII and embedded quotes, optional types, PRIMARY KEY inline or trailing, NOT NULL on the key, keyword case and whitespace varied; options in any order), half of them with one mutation from the property's list of invalid forms. Accept oracle: pragma table_info equals that of a native table declared from the same specification with proper quoting, rows come back under the specified names, a NULL key is refused. Reject oracle: error, no table registered, no PUT/DELETE in the request log, the corrected definition of the same name then succeeds; rejections at open time (s3_endpoint without s3_bucket, a bucket that refuses every request) and text after the closing quote of columns= are included, and what is written must lie under the given s3_prefix. Thorough tier adds coverage-guided native fuzzing of the columns parser (no panic, no hang).",
     "grammar-based property-based testing (rapid) with accept/reject model + differential declaration check against SQLite; native go fuzzing of the parser"))
 
 CHECKS.append(chk("C18", "exploration",
-    "Through the public V1NodeEncryptor: round trip for every plaintext length 0..200 and block edges / large sizes; encrypting twice and under a second instance is byte-identical (deduplication); one generated corruption per case (bit flip anywhere, substitution, truncation, extension, nonce swap, wrong passphrase) must be an error; a harness-owned sealer for the earlier box format (validated byte-for-byte against the package's reference sealer) produces ciphertexts that must decrypt to the plaintext (open finding K6 beyond 32 bytes). kv level over the fake store: no node object contains generated key/value markers (control run without encryptor must show them), same content gives same node names and bytes across buckets and stores no new node object when the nodes exist, one flipped bit in a stored node or another passphrase makes open/Get fail. Thorough adds coverage-guided native fuzzing of Decrypt with an exact oracle (whatever is accepted must re-seal to the input).",
+    "Through the public V1NodeEncryptor: round trip for every plaintext length 0..200 and block edges / large sizes; encrypting twice and under a second instance is byte-identical (deduplication); one generated corruption per case (bit flip anywhere, substitution, truncation, extension, nonce swap, wrong passphrase) must be an error; a harness-owned sealer for the earlier box format (validated byte-for-byte against the package's reference sealer) produces ciphertexts that must decrypt to the plaintext (open finding K6 beyond 32 bytes). kv level over the fake store: no node object contains generated key/value markers (control run without encryptor must show them), same content gives same node names and bytes across buckets and stores no new node object when the nodes exist, one flipped bit in a stored node or another passphrase makes open/Get fail; in a third of the cases one node PUT fails once and the application starts over (nothing that reached the bucket may be plaintext). Thorough adds coverage-guided native fuzzing of Decrypt with an exact oracle (whatever is accepted must re-seal to the input).",
     "property-based testing (rapid): round-trip, determinism, tamper/negative cases, differential legacy sealer; native go fuzzing with a re-seal oracle"))
 
 CHECKS.append(chk("C17", "exploration",
-    "State machine directly on kv.DB over the fake store (1-3 handles; Set/Tombstone with unique times in arbitrary order, Commit, Clone, Reopen merging all current versions in a generated order, RemoveTombstones, Diff, TraceHistory; default, conflict-callback and custom-merge modes; gob and JSON node codecs; three node formats; branch factor 2-4096). After every step Get, IsTombstoned, Size and a full cursor scan with times and tombstones must equal a map model of the documented join; Diff must report exactly the keys whose visible value differs, each once, with both values; TraceHistory must start at the current value and yield only values that were Set, in strictly decreasing time; the conflict callback must only see two different live values held by the merged versions.",
+    "State machine directly on kv.DB over the fake store (1-3 handles; Set/Tombstone with unique times in arbitrary order, Commit, Clone, Reopen merging all current versions in a generated order, RemoveTombstones, Diff, TraceHistory; default, conflict-callback and custom-merge modes; gob and JSON node codecs; three node formats; branch factor 2-4096). After every step Get, IsTombstoned, Size and a full cursor scan with times and tombstones must equal a map model of the documented join; Diff must report exactly the keys whose visible value differs, each once, with both values; TraceHistory (also of currently tombstoned keys) must start at the current value or kept tombstone and yield only values that were Set, in strictly decreasing time; the conflict callback must only see two different live values held by the merged versions.",
     "stateful model-based property-based testing (rapid) against a map reference model"))
 
 CHECKS.append(chk("C03", "exploration",
-    "Schedules are generated inputs: 2-3 clients run scripts (autocommit writes on their own key ranges, s3db_refresh, read-only opens) on their own goroutines, but every client blocks in the fake store before each LIST and each GET/PUT/DELETE under root/ and runs only when a deterministic scheduler releases it according to the generated schedule, so the interleaving of version-level requests is exactly the generated one. History oracle: for every completed open or refresh the rows of every client must equal one of that client's committed states j, lo<=j<=hi (lo = its commits acknowledged before the open began, hi = its commits started before the open ended); at the end a fresh open must contain every acknowledged commit. Schedules are sampled, not exhausted.",
+    "Schedules are generated inputs: 2-3 clients run scripts (autocommit writes on their own key ranges, s3db_refresh, read-only opens) on their own goroutines, but every client blocks in the fake store before each LIST and each GET/PUT/DELETE under root/ and runs only when a deterministic scheduler releases it according to the generated schedule, so the interleaving of version-level requests is exactly the generated one. History oracle: for every completed open or refresh the rows of every client must equal one of that client's committed states j, lo<=j<=hi (lo = its commits acknowledged before the open began, hi = its commits started before the open ended); at the end a fresh open must contain every acknowledged commit. A third of the sampled cases add windows of delayed visibility of tree nodes. A second sub-check takes generated small two-client scenarios and executes EVERY interleaving of their version-level requests (depth-first with re-execution; about 100 per scenario; capped scenarios are counted).",
     "property-based testing (rapid) with a harness-owned deterministic scheduler at object-store request granularity + history invariant"))
 
 CHECKS.append(chk("C19", "exploration",
-    "Built with the Go race detector: 2-6 connections, one goroutine each (GOMAXPROCS 2/4/16, generated yields), with tables on private prefixes, on a shared prefix with own key ranges, and on the built-in in-memory bucket, running generated streams of writes with connection-specific write times, transactions, scans, s3db_refresh, s3db_vacuum, s3db_version, deadline updates and CREATE/DROP of further tables. Oracles: no race report (the report text is saved beside the case), every goroutine finishes (120 s watchdog with goroutine dump), s3db_conn shows the connection's own values after every statement, written cells carry the connection's own write times, each table's own rows equal the connection's statements applied sequentially, and a final fresh open of the shared prefix equals the union of the sharing connections' models. Thread schedules are the Go scheduler's, not owned by the harness.",
+    "Built with the Go race detector: 2-6 connections, one goroutine each (GOMAXPROCS 2/4/16, generated yields), with tables on private prefixes, on a shared prefix with own key ranges, and on the built-in in-memory bucket, running generated streams of writes with connection-specific write times, transactions, scans, s3db_refresh, s3db_vacuum, s3db_version, deadline updates and CREATE/DROP of further tables. Oracles: no race report (the report text is saved beside the case), every goroutine finishes (300 s watchdog with goroutine dump), s3db_conn shows the connection's own values after every statement, written cells carry the connection's own write times, each table's own rows equal the connection's statements applied sequentially, and a final fresh open of the shared prefix equals the union of the sharing connections' models. Two further sub-checks: tables WITHOUT s3_bucket created by 2-8 threads at once, one case per process over waves of processes (first use of the process-wide in-memory bucket); and connections of one process used strictly one after another on one prefix with node caches on (no cross-talk through process-wide state). Thread schedules are the Go scheduler's, not owned by the harness.",
     "randomised concurrent stress under the Go race detector with per-connection sequential reference models (rapid-generated streams)",
     note=TRUST + " The race detector is a dynamic happens-before checker over the schedules that happened. AWS_CA_BUNDLE is removed from the environment of the check processes (with it the AWS SDK's NewSession races on the shared http.DefaultClient, an SDK/sandbox artefact)."))
 
